@@ -157,7 +157,9 @@ fn gen_argv(r: &mut Rng, source: &str) -> Vec<String> {
     if source == "none" {
         a.extend(["--tag-version".into(), r.pick(&["1.2.3", "v0.9.9-rc.2", "1.0.0a1", "2!1.0.post3"]).to_string()]);
         a.extend(["--bumped-branch".into(), r.pick(&["main", "feature/ünï", "release/4", "develop"]).to_string()]);
-        a.extend(["--bumped-timestamp".into(), r.pick(&["1700000000", "1704067199", "951782400", "4102444799"]).to_string()]);
+        if r.chance(3, 4) {
+            a.extend(["--bumped-timestamp".into(), r.pick(&["1700000000", "1704067199", "951782400", "4102444799"]).to_string()]);
+        }
         if r.chance(1, 2) {
             a.extend(["--distance".into(), r.below(5).to_string()]);
         }
@@ -192,7 +194,7 @@ fn gen_argv(r: &mut Rng, source: &str) -> Vec<String> {
     a
 }
 
-pub fn generate(r: &mut Rng, _tier: Tier) -> serde_json::Value {
+pub fn generate(r: &mut Rng, _tier: Tier, _group: u64) -> serde_json::Value {
     let source = *r.pick(&["git", "git", "git", "stdin", "none"]);
     let (mut actors, mut ops, _) = c02::gen_history(r, 5, 12);
     if source != "git" {
@@ -329,6 +331,7 @@ impl<'a> Exec<'a> {
             stdin,
             path: None,
             rm_cwd: false,
+            stdout: crate::proc::Stdout::Capture,
         }
     }
 }
